@@ -5,6 +5,7 @@ import (
 	"encoding/json"
 	"fmt"
 	"io"
+	"net"
 	"net/http"
 	"net/http/httptest"
 	"sort"
@@ -50,6 +51,9 @@ type WrCase struct {
 	AbortOnErr bool `json:"abortonerr,omitempty"`
 	// ReqHdrs: further request headers; none of them changes what the plugins owe the client
 	ReqHdrs [][2]string `json:"reqhdrs,omitempty"`
+	// HalfClose: the client closes its sending side once the request is out (it still reads); the handler waits until the server has
+	// noticed (the request context ends) and answers then: the answer is still owed in full
+	HalfClose bool `json:"halfclose,omitempty"`
 }
 
 var wrCT = []string{"application/json", "text/html; charset=utf-8", "text/plain", "image/png", "application/json; charset=utf-8", "text/css", "application/octet-stream"}
@@ -108,6 +112,12 @@ func scriptedHandler3(script, pre []WrOp, probe *handlerProbe, abortOnErr bool) 
 			script = pre
 		}
 		b, _ := io.ReadAll(r.Body)
+		if r.Header.Get("X-Half-Close") != "" && r.URL.Path != "/pre" {
+			select {
+			case <-r.Context().Done():
+			case <-time.After(800 * time.Millisecond):
+			}
+		}
 		probe.mu.Lock()
 		probe.called = true
 		probe.read = len(b)
@@ -123,6 +133,11 @@ func scriptedHandler3(script, pre []WrOp, probe *handlerProbe, abortOnErr bool) 
 				w.WriteHeader(op.Code)
 			case "write":
 				if _, err := w.Write(detBytes(off, op.N)); err != nil && abortOnErr && r.URL.Path != "/pre" {
+					panic(http.ErrAbortHandler)
+				}
+				off += op.N
+			case "copy": // what io.Copy / http.ServeContent do: through the writer's ReadFrom when it has one, one Write otherwise (N <= 32 KiB)
+				if _, err := io.Copy(w, struct{ io.Reader }{bytes.NewReader(detBytes(off, op.N))}); err != nil && abortOnErr && r.URL.Path != "/pre" {
 					panic(http.ErrAbortHandler)
 				}
 				off += op.N
@@ -189,7 +204,16 @@ func wrExchange(h http.Handler, probe *handlerProbe, c WrCase) wrView {
 	if c.ReqFraming != "" {
 		body = detBytes(7, c.ReqLen)
 	}
+	if c.HalfClose {
+		hdrs = append(hdrs, [2]string{"X-Half-Close", "1"})
+		rawAfterSend = func(conn net.Conn) {
+			if tc, ok := conn.(*net.TCPConn); ok {
+				tc.CloseWrite()
+			}
+		}
+	}
 	resp := rawExchange(srv.Listener.Addr().String(), buildRequest(c.Method, "/x", "wr.local", hdrs, body, c.ReqFraming), c.Method, 3*time.Second)
+	rawAfterSend = nil
 	probe.mu.Lock()
 	v := wrView{called: probe.called, read: probe.read, resp: resp}
 	probe.mu.Unlock()
@@ -305,7 +329,7 @@ func runWrCase(c WrCase) (string, map[string]int) {
 			script = append(script, fmt.Sprintf("CDel %d", op.Key))
 		case "head":
 			script = append(script, fmt.Sprintf("CHead %d", op.Code))
-		case "write":
+		case "write", "copy":
 			script = append(script, fmt.Sprintf("CWrite (PRaw %d)", op.N))
 		case "flush", "cflush":
 			script = append(script, "CFlush")
@@ -412,7 +436,7 @@ func genWrCase(g *Rng) WrCase {
 		c.Script = append(c.Script, WrOp{K: "set", Key: 3, Val: g.Range(1, 4)})
 	}
 	if g.Chance(10) {
-		c.Script = append(c.Script, WrOp{K: "head", Code: 103})
+		c.Script = append(c.Script, WrOp{K: "head", Code: []int{103, 103, 102, 100}[g.Intn(4)]})
 	}
 	if g.Chance(15) { // request headers that invite a shortcut
 		c.ReqHdrs = [][][2]string{
@@ -461,7 +485,11 @@ func genWrCase(g *Rng) WrCase {
 		if g.Chance(60) {
 			n = g.Range(1, rem)
 		}
-		c.Script = append(c.Script, WrOp{K: "write", N: n})
+		wk := "write"
+		if n <= 32768 && g.Chance(10) {
+			wk = "copy"
+		}
+		c.Script = append(c.Script, WrOp{K: wk, N: n})
 		rem -= n
 		if !declareCL && g.Chance(20) {
 			c.Script = append(c.Script, WrOp{K: []string{"flush", "flush", "cflush"}[g.Intn(3)]})
@@ -536,6 +564,19 @@ func wrCorpus() []WrCase {
 		{Chain: []WrPlug{gz(16, false)}, AE: "gzip", Method: "GET", Script: []WrOp{{K: "set", Key: 1, Val: 0}, {K: "set", Key: 3, Val: 4}, {K: "write", N: 40}}},
 		{Chain: []WrPlug{sl(10, 100)}, AE: "\x00", Method: "GET", Script: []WrOp{{K: "head", Code: 999}, {K: "write", N: 4}}},
 		{Chain: []WrPlug{sl(10, 100)}, AE: "\x00", Method: "GET", Script: []WrOp{{K: "head", Code: 600}}},
+		// a client that has half-closed: the context of the request has ended, the connection is still good for the answer
+		{Chain: []WrPlug{sl(10, 100)}, AE: "\x00", Method: "GET", HalfClose: true, Script: []WrOp{{K: "set", Key: 1, Val: 2}, {K: "head", Code: 201}, {K: "write", N: 30}, {K: "write", N: 30}}},
+		{Chain: []WrPlug{{Name: "logging"}, sl(10, 100)}, AE: "\x00", Method: "GET", HalfClose: true, Script: []WrOp{{K: "write", N: 9}}},
+		// a body handed over with io.Copy (the writer's ReadFrom, if it had one) at and above the limit; 100 and 102 as interim
+		// responses; the default compression level with a body above one megabyte
+		{Chain: []WrPlug{sl(10, 100)}, AE: "\x00", Method: "GET", Script: []WrOp{{K: "set", Key: 1, Val: 2}, {K: "copy", N: 100}}},
+		{Chain: []WrPlug{sl(10, 100)}, AE: "\x00", Method: "GET", Script: []WrOp{{K: "set", Key: 1, Val: 2}, {K: "copy", N: 101}}},
+		{Chain: []WrPlug{sl(10, 100)}, AE: "\x00", Method: "GET", AbortOnErr: true, Script: []WrOp{{K: "head", Code: 200}, {K: "copy", N: 60}, {K: "copy", N: 60}}},
+		{Chain: []WrPlug{gz(16, false)}, AE: "gzip", Method: "GET", Script: []WrOp{{K: "set", Key: 1, Val: 0}, {K: "head", Code: 100}, {K: "head", Code: 201}, {K: "write", N: 40}}},
+		{Chain: []WrPlug{gz(16, false)}, AE: "gzip", Method: "GET", Script: []WrOp{{K: "set", Key: 1, Val: 0}, {K: "head", Code: 102}, {K: "head", Code: 404}, {K: "write", N: 40}}},
+		{Chain: []WrPlug{sl(10, 100)}, AE: "\x00", Method: "GET", Script: []WrOp{{K: "head", Code: 100}, {K: "head", Code: 404}, {K: "write", N: 4}}},
+		{Chain: []WrPlug{{Name: "gzip", GzMin: 16, GzLevel: -1, GzTypes: []int{0}}}, AE: "gzip", Method: "GET", Script: []WrOp{{K: "set", Key: 1, Val: 0}, {K: "write", N: 1100000}}},
+		{Chain: []WrPlug{{Name: "gzip", GzMin: 16, GzLevel: -1, GzTypes: []int{0}, GzInt: true}}, AE: "gzip", Method: "GET", Script: []WrOp{{K: "set", Key: 1, Val: 0}, {K: "head", Code: 201}, {K: "write", N: 600000}, {K: "write", N: 600000}}},
 		// a Flush before anything else, then a body that would qualify for compression
 		{Chain: []WrPlug{gz(16, false)}, AE: "gzip", Method: "GET", Script: []WrOp{{K: "set", Key: 1, Val: 0}, {K: "flush"}, {K: "write", N: 40}}},
 		{Chain: []WrPlug{gz(16, false)}, AE: "gzip", Method: "GET", Script: []WrOp{{K: "flush"}, {K: "set", Key: 1, Val: 0}, {K: "head", Code: 201}, {K: "write", N: 40}}},
